@@ -175,8 +175,10 @@ func (t *tracker) out(role string, m proto.Message) {
 }
 
 // check compares every live handed-out handle with its frozen copy; changed ones are reported once (they are
-// re-frozen).  exempt: the change is the caller's own scribble showing through an alias.
-func (t *tracker) check(exempt bool) (nh int, changed []changedHandle, aliased int) {
+// re-frozen).  own: the message objects the caller has just scribbled on (his arguments and the messages nested in
+// them): a handle that IS one of those objects changed by the caller's own hand and is exempt from then on.  A
+// handle that is another object and changed with the scribble shares memory with the caller's message: reported.
+func (t *tracker) check(own map[any]bool) (nh int, changed []changedHandle, aliased int) {
 	t.mu.Lock()
 	defer t.mu.Unlock()
 	changed = []changedHandle{}
@@ -192,7 +194,7 @@ func (t *tracker) check(exempt bool) (nh int, changed []changedHandle, aliased i
 		if equal {
 			continue
 		}
-		if exempt {
+		if own[h.m] {
 			h.scribbled = true
 			aliased++
 			continue
@@ -278,9 +280,128 @@ const (
 	garbageInt    = 123456789
 )
 
-// scribble overwrites every field of m the way a caller re-using his message could: nested messages, list elements,
-// map values and byte slices are overwritten IN PLACE (so that anything sharing memory with them shows it), then
-// every field is set.
+// ownMessages collects the message objects reachable from ms (themselves, nested messages, list elements, map
+// values): the objects the caller is about to overwrite.
+func ownMessages(ms []proto.Message) map[any]bool {
+	own := map[any]bool{}
+	var walk func(m protoreflect.Message, depth int)
+	walk = func(m protoreflect.Message, depth int) {
+		if !m.IsValid() || depth > 8 {
+			return
+		}
+		own[m.Interface()] = true
+		m.Range(func(fd protoreflect.FieldDescriptor, v protoreflect.Value) bool {
+			switch {
+			case fd.IsMap():
+				if fd.MapValue().Message() != nil {
+					v.Map().Range(func(_ protoreflect.MapKey, mv protoreflect.Value) bool { walk(mv.Message(), depth+1); return true })
+				}
+			case fd.IsList():
+				if fd.Message() != nil {
+					for i := 0; i < v.List().Len(); i++ {
+						walk(v.List().Get(i).Message(), depth+1)
+					}
+				}
+			case fd.Message() != nil:
+				walk(v.Message(), depth+1)
+			}
+			return true
+		})
+	}
+	for _, m := range ms {
+		if validMsg(m) {
+			hx.Catch(func() { walk(m.ProtoReflect(), 0) })
+		}
+	}
+	return own
+}
+
+// scribbleMessage is the caller overwriting a message he handed to a write.  First every piece of memory reachable
+// from the message is written THROUGH, in place, the way recycling a request message does (`*ev.EnterTotal = -101`,
+// `ev.Traits[0].Name = ...`): the pointers of optional scalars, the elements of repeated fields, the entries of maps,
+// byte slices, oneof wrappers, the fields of nested messages.  Then every field is set through protoreflect (which
+// replaces pointers and grows lists and maps).  Anything that shares memory with the message shows the first pass.
+func scribbleMessage(m proto.Message) {
+	if !validMsg(m) {
+		return
+	}
+	writeThrough(reflect.ValueOf(m), 0)
+	scribble(m.ProtoReflect(), 0)
+}
+
+// writeThrough walks the generated Go struct of a message and stores garbage into the memory it points to, without
+// replacing any pointer, slice or map.
+func writeThrough(v reflect.Value, depth int) {
+	if depth > 12 {
+		return
+	}
+	switch v.Kind() {
+	case reflect.Ptr:
+		if v.IsNil() {
+			return
+		}
+		if v.Elem().Kind() == reflect.Struct {
+			st := v.Elem()
+			for i := 0; i < st.NumField(); i++ {
+				if st.Type().Field(i).IsExported() {
+					writeThrough(st.Field(i), depth+1)
+				}
+			}
+			return
+		}
+		writeThrough(v.Elem(), depth+1) // optional scalar: write through the pointer
+	case reflect.Interface: // a oneof: write into the wrapper it holds
+		if !v.IsNil() {
+			writeThrough(v.Elem(), depth+1)
+		}
+	case reflect.Slice:
+		if v.Type().Elem().Kind() == reflect.Uint8 { // bytes
+			for i := 0; i < v.Len(); i++ {
+				v.Index(i).SetUint(v.Index(i).Uint() ^ 0xFF)
+			}
+			return
+		}
+		for i := 0; i < v.Len(); i++ {
+			writeThrough(v.Index(i), depth+1)
+		}
+	case reflect.Map:
+		for _, k := range v.MapKeys() {
+			e := v.MapIndex(k)
+			switch e.Kind() {
+			case reflect.Ptr, reflect.Slice:
+				writeThrough(e, depth+1)
+			default:
+				g := reflect.New(e.Type()).Elem()
+				g.Set(e)
+				writeThrough(g, depth+1)
+				v.SetMapIndex(k, g)
+			}
+		}
+	case reflect.Bool:
+		if v.CanSet() {
+			v.SetBool(!v.Bool())
+		}
+	case reflect.Int32, reflect.Int64:
+		if v.CanSet() {
+			v.SetInt(-garbageInt)
+		}
+	case reflect.Uint32, reflect.Uint64:
+		if v.CanSet() {
+			v.SetUint(garbageInt + 1)
+		}
+	case reflect.Float32, reflect.Float64:
+		if v.CanSet() {
+			v.SetFloat(-54321.5)
+		}
+	case reflect.String:
+		if v.CanSet() {
+			v.SetString("\x7fWRITTEN-THROUGH\x7f")
+		}
+	}
+}
+
+// scribble sets every field of m through protoreflect: nested messages, list elements, map values and byte slices
+// are overwritten in place, then every field is set.
 func scribble(m protoreflect.Message, depth int) {
 	fds := m.Descriptor().Fields()
 	for i := 0; i < fds.Len(); i++ {
